@@ -339,4 +339,115 @@ def readRecord : Dec EventRecord := fun b => (readU32 b).bind fun _ rest => (rea
   (readN 32 rest).bind fun l rest => (readN 32 rest).bind fun c rest => (readLenBytes rest).bind fun e rest =>
     (readU32 rest).bind fun _ rest => ret { time := t, last := l, commit := c, event := e } rest
 
+
+/-! ### vault header and contents (crates/vault/src/encoding/vault.rs) -/
+
+/-- `read_bool`: any non-zero byte is true -/
+def readBool : Dec Bool := fun b => (readU8 b).bind fun n rest => ret (decide (n > 0)) rest
+def encBool (x : Bool) : Bytes := encU8 (if x then 1 else 0)
+
+def readOpt (present : Bool) (d : Dec α) : Dec (Option α) := fun b =>
+  if present then (d b).bind fun v rest => ret (some v) rest else ret none b
+
+structure VaultMeta where
+  created : DateTime
+  description : Bytes
+deriving Repr, DecidableEq
+def readVaultMeta : Dec VaultMeta := fun b => (readDateTime b).bind fun t rest =>
+  (readString rest).bind fun d rest => ret { created := t, description := d } rest
+def encVaultMeta (m : VaultMeta) : Bytes := encDateTime m.created ++ encString m.description
+
+structure Auth where
+  salt : Option Bytes
+  seed : Option Bytes          -- 32 bytes
+deriving Repr, DecidableEq
+def readAuth : Dec Auth := fun b => (readBool b).bind fun hs rest =>
+  (readOpt hs readString rest).bind fun salt rest => (readBool rest).bind fun hd rest =>
+    (readOpt hd (readN 32) rest).bind fun seed rest => ret { salt := salt, seed := seed } rest
+def encOpt (enc : α → Bytes) : Option α → Bytes
+  | none => encBool false
+  | some v => encBool true ++ enc v
+def encAuth (a : Auth) : Bytes := encOpt encString a.salt ++ encOpt id a.seed
+
+/-- one-byte identifier that must be in a table regenerated from the source -/
+def readId (table : List (String × Nat)) : Dec Nat := fun b => (readU8 b).bind fun n rest =>
+  if table.any (fun e => e.2 == n) then ret n rest else fail
+
+structure Summary where
+  version : Nat
+  cipher : Nat
+  kdf : Nat
+  id : Bytes                    -- 16 bytes
+  name : Bytes
+  flags : Nat
+deriving Repr, DecidableEq
+def readSummary : Dec Summary := fun b => (readU16 b).bind fun v rest =>
+  (readId Generated.cipherIds rest).bind fun c rest => (readId Generated.kdfIds rest).bind fun k rest =>
+    (readN 16 rest).bind fun i rest => (readString rest).bind fun n rest => (readU64 rest).bind fun f rest =>
+      if flagsOk f then ret { version := v, cipher := c, kdf := k, id := i, name := n, flags := f } rest else fail
+def encSummary (s : Summary) : Bytes :=
+  encU16 s.version ++ encU8 s.cipher ++ encU8 s.kdf ++ s.id ++ encString s.name ++ encU64 s.flags
+
+inductive SharedAccess where
+  | write (recipients : List Bytes)      -- age recipients; their syntax check is not modelled
+  | readOnly (p : AeadPack)
+deriving Repr, DecidableEq
+def readShared : Dec SharedAccess := fun b => (readU8 b).bind fun k rest =>
+  if k = 1 then (readU16 rest).bind fun n rest => (readMany readString n rest).bind fun rs rest => ret (.write rs) rest
+  else if k = 2 then (readAead rest).bind fun p rest => ret (.readOnly p) rest
+  else fail
+def encShared : SharedAccess → Bytes
+  | .write rs => encU8 1 ++ encU16 rs.length ++ (rs.map encString).flatten
+  | .readOnly p => encU8 2 ++ encAead p
+
+def vaultIdentity : Bytes := [0x53, 0x4F, 0x53, 0x56]
+
+structure Header where
+  summary : Summary
+  metaP : Option AeadPack
+  auth : Auth
+  shared : SharedAccess
+deriving Repr, DecidableEq
+/-- identity bytes, a back-patched u32 header length the decoder ignores, then the fields -/
+def readHeader : Dec Header := fun b => (readFixed 4 b).bind fun idb rest =>
+  if idb = vaultIdentity then
+    (readU32 rest).bind fun _ rest => (readSummary rest).bind fun s rest => (readBool rest).bind fun hm rest =>
+      (readOpt hm readAead rest).bind fun m rest => (readAuth rest).bind fun a rest =>
+        (readShared rest).bind fun sh rest => ret { summary := s, metaP := m, auth := a, shared := sh } rest
+  else fail
+def encHeaderBody (h : Header) : Bytes :=
+  encSummary h.summary ++ encOpt encAead h.metaP ++ encAuth h.auth ++ encShared h.shared
+def encHeader (h : Header) : Bytes := vaultIdentity ++ encU32 (encHeaderBody h).length ++ encHeaderBody h
+
+/-- one row of the vault contents: length, secret id, commit + entry, length again (both
+lengths back-patched by the encoder and ignored by the decoder) -/
+def readRow : Dec (Bytes × VaultCommit) := fun b => (readU32 b).bind fun _ rest => (readN 16 rest).bind fun i rest =>
+  (readVaultCommit rest).bind fun c rest => (readU32 rest).bind fun _ rest => ret (i, c) rest
+def encRow (r : Bytes × VaultCommit) : Bytes :=
+  let body := r.1 ++ encVaultCommit r.2
+  encU32 body.length ++ body ++ encU32 body.length
+
+/-- `IndexMap::insert`: an existing key keeps its position and gets the new value -/
+def insertRow (rows : List (Bytes × VaultCommit)) (r : Bytes × VaultCommit) : List (Bytes × VaultCommit) :=
+  if rows.any (fun x => x.1 == r.1) then rows.map (fun x => if x.1 == r.1 then r else x) else rows ++ [r]
+
+/-- `Contents::decode`: rows until the input is exhausted (every row takes at least 24
+bytes, so the input length is enough fuel) -/
+def readRows : Nat → Dec (List (Bytes × VaultCommit))
+  | 0 => fun b => if b = [] then ret [] b else fail
+  | fuel + 1 => fun b =>
+    if b = [] then ret [] b
+    else (readRow b).bind fun r rest => (readRows fuel rest).bind fun rs rest => ret (r :: rs) rest
+def readContents : Dec (List (Bytes × VaultCommit)) := fun b =>
+  (readRows b.length b).bind fun rows rest => ret (rows.foldl insertRow []) rest
+def encContents (rows : List (Bytes × VaultCommit)) : Bytes := (rows.map encRow).flatten
+
+structure VaultFile where
+  header : Header
+  rows : List (Bytes × VaultCommit)
+deriving Repr, DecidableEq
+def readVault : Dec VaultFile := fun b => (readHeader b).bind fun h rest =>
+  (readContents rest).bind fun rows rest => ret { header := h, rows := rows } rest
+def encVault (v : VaultFile) : Bytes := encHeader v.header ++ encContents v.rows
+
 end Sos.Codec
